@@ -4,7 +4,10 @@ Layer A: lean/DashLive/Props/C08.lean (ast_le_now, publish_in_range, tsbd_bounds
 fat_eq, publish_quantised, publish_mono, symbolic_age, symbolic_stable, …) over the
 model `DashLive.LiveTiming.calculateLiveParams` (+ the calendar walk).
 
-Layer B – four correspondence channels, all against the compiled Lean driver:
+Layer B – (1) translator: harness/gen_livetiming.py regenerates lean/DashLive/Gen/LiveTiming.lean from the
+source text of DashTiming.__init__ + calculate_live_params on every run and Props/GenTieLiveTiming.lean proves
+the translated function equal to the model (tie_liveTiming); (2) four correspondence channels, all against the
+compiled Lean driver:
   * `calendar`   – the subtractive calendar walk vs Python's proleptic Gregorian
                    calendar, every day 1970-01-01 … 2243-12-31 (both tiers);
   * `mupdefault` – default minimumUpdatePeriod of the real `DashTiming` over a sweep
@@ -57,10 +60,20 @@ MANIFEST_ENTRY = {
         "symbolic roll-over it steps back by < one period (proved bound, Lean witness, open ledger entry)."),
     "technique": "Lean 4 proof (omega over µs integers, structural calendar walk) + model/implementation correspondence",
 }
-PROP_FILES = ["DashLive/Props/C08.lean"]
-LEAN_TARGETS = ["DashLive.Props.C08"]
-GENERATORS: list = []
+PROP_FILES = ["DashLive/Props/C08.lean", "DashLive/Props/GenTieLiveTiming.lean"]
+LEAN_TARGETS = ["DashLive.Props.C08", "DashLive.Props.GenTieLiveTiming"]
+
+
+def _gen_livetiming():
+    """Gen/LiveTiming.lean (DashTiming.__init__ + calculate_live_params) is translated from /repo's source text
+    on every run; Props/GenTieLiveTiming.lean proves it equal to the model the C08 theorems are about"""
+    import gen_livetiming
+    gen_livetiming.main()
+
+
+GENERATORS = [_gen_livetiming]
 TRUSTED = [
+    "harness/pytolean.py + harness/gen_livetiming.py (Python ast -> Lean): the mapping of the datetime/float idioms of timing.py to integer microsecond arithmetic (table in gen_livetiming.py; floorMonth/floorYear and round() are parameters instantiated by the calendar walk / round-half-even and validated by the calendar and mupdefault channels); logging statements are not translated",
     "Python datetime/date arithmetic (proleptic Gregorian calendar, timedelta subtraction) as the reference for the calendar walk and for converting real datetimes to integer microseconds",
     "integer reading of the float steps of calculate_live_params (total_seconds()==0, <depth, int(), //mup, round(2.0*sd/ts)); argued exact for |elapsed| < 2^33 s and segment_duration < 2^51, validated by the livetiming/mupdefault channels",
     "/verif/shims (flask_login, sqlalchemy_jsonfield, dotenv, netifaces stand-ins) and appboot.Clock for the manifest channel; Jinja rendering and Flask routing are used, not modelled",
